@@ -188,6 +188,58 @@ def pProfiles : P String := do
         xs := xs.push (f k)
     pure (okLine xs)
 
+def parseInts (s : String) : Option (List Int) :=
+  if s.isEmpty then some [] else
+  (s.splitOn ",").foldr (fun t acc => match acc, t.toInt? with
+    | some l, some v => some (v :: l)
+    | _, _ => none) (some [])
+
+def pMetVal : P MetVal := do
+  let t ← tok
+  if t == "N" then pure MetVal.none
+  else if t.startsWith "S:" then
+    match (t.drop 2).toString.toInt? with
+    | some v => pure (MetVal.scalar v)
+    | none => failure
+  else if t.startsWith "L:" then
+    match parseInts (t.drop 2).toString with
+    | some l => pure (MetVal.list l)
+    | none => failure
+  else failure
+
+def showOpt : Option Int → String
+  | some v => toString v
+  | none => "N"
+
+def pMet : P String := do
+  let us ← pMetVal
+  let mo ← pMetVal
+  let ws ← pMetVal
+  let wd ← pMetVal
+  let z0v ← pMetVal
+  let tsv ← pMetVal
+  let nq ← pNat
+  pEnd
+  let z0 ← match z0v with
+    | .none => pure none
+    | .scalar x => pure (some x)
+    | .list _ => failure
+  let ts ← match tsv with
+    | .none => pure none
+    | .list l => pure (some l)
+    | .scalar _ => failure
+  let m : MetCfg := { ustar := us, mol := mo, windSpeed := ws, windDir := wd, z0 := z0, timestamps := ts }
+  let mut out := s!"ok {if m.validate then 1 else 0} {m.nTimesteps}"
+  for i in [0:nq] do
+    match m.getStep i with
+    | .error _ => out := out ++ " | E"
+    | .ok st =>
+      let tss := match st.timestamp with
+        | .inl t => s!"t{t}"
+        | .inr k => s!"i{k}"
+      out := out ++ s!" | {showOpt st.ustar} {showOpt st.mol} {showOpt st.windSpeed} {showOpt st.windDir} {showOpt st.z0} {tss}"
+  pure out
+
 def dispatch : P String := do
   let op ← tok
   if op == "solve" then pSolve
@@ -197,6 +249,7 @@ def dispatch : P String := do
   else if op == "psi" then pPsi false
   else if op == "phi" then pPsi true
   else if op == "profiles" then pProfiles
+  else if op == "met" then pMet
   else failure
 
 def handle (line : String) : String :=
